@@ -362,6 +362,18 @@ int reb_simulation_remove_particle(struct reb_simulation* const r, int index, in
 		reb_simulation_error(r, warning);
 		return 0;
 	}
+    if (r->N>1){
+        // Refuse before any integrator specific bookkeeping is touched.
+        if (r->N_var){
+            reb_simulation_error(r, "Removing particles not supported when calculating MEGNO.  Did not remove particle.");
+            return 0;
+        }
+        const int sorted_removal = keep_sorted || r->integrator == REB_INTEGRATOR_MERCURIUS || r->integrator == REB_INTEGRATOR_TRACE;
+        if (sorted_removal && r->tree_root){
+            reb_simulation_error(r, "REBOUND cannot remove a particle a tree and keep the particles sorted. Did not remove particle.");
+            return 0;
+        }
+    }
     if (r->integrator == REB_INTEGRATOR_MERCURIUS){
         keep_sorted = 1; // Force keep_sorted for hybrid integrator
         struct reb_integrator_mercurius* rim = &(r->ri_mercurius);
